@@ -219,6 +219,16 @@ def run_history(ctx, mk, hist, nwriters, workdir):
         b = [recgen.canon(recgen.obs_item(x, True)) for x in rb]
         if a != b:
             return "binary writer %d: read back differs (descriptor or values)" % w, datas, per
+        # the definitions a reader has taken in stay with it: the same stream consumed in two passes (the first loop left
+        # after one record) yields the same records with the same descriptors
+        if len(per[w]) > 1:
+            try:
+                rb2 = sc.read_stream_items_two_pass(datas[w])
+            except Exception as e:  # noqa
+                return ("binary writer %d: reading the stream in two passes (first loop left after one record, a second loop over the "
+                        "same reader) raised %s: %s" % (w, type(e).__name__, e)), datas, per
+            if [recgen.canon(recgen.obs_item(x, True)) for x in rb2] != a:
+                return "binary writer %d: read back in two passes differs (descriptor or values)" % w, datas, per
         # alone = interleaved
         alone = sc.write_stream_bytes(per[w])
         if alone != datas[w]:
